@@ -87,7 +87,7 @@ func (fr *FnRun) checkCallSite(st *State, site ssa.Instruction, c *ssa.CallCommo
 		for k, v := range fr.env0 {
 			vars[k] = v
 		}
-		fr.bindLocals(st, vars)
+		fr.bindLocalsAt(st, vars, site)
 		env := &Env{st: st, old: fr.entry, vars: vars, fr: fr}
 		for i, a := range sp.Asserts {
 			d := a.Label
